@@ -1,5 +1,6 @@
 import IncanModel.Sem.ConstEval
 import IncanModel.Driver.Util
+import IncanModel.Sem.Comprehension
 namespace Incan.Driver
 open Incan.ConstEval
 
@@ -95,6 +96,10 @@ def staticTable (defs : List (String × E)) : String → Option (List Char) :=
     | none => S) (fun _ => none)
 
 def handleC06 : List String → String
+  | ["frozenset", elems, probes] =>
+    let es : List Int := (elems.splitOn ",").filterMap String.toInt?
+    let ps : List Int := (probes.splitOn ",").filterMap String.toInt?
+    ",".intercalate (ps.map fun p => if Incan.Comp.contains es p then "true" else "false")
   | ["const", defs, e] =>
     (match parseDefs defs, parseE e with
     | some ds, some e =>
